@@ -274,6 +274,23 @@ def run_case(case, seed):
                 if (ab.k, ab.parity) != (ba.k, ba.parity) or not np.array_equal(np.asarray(ab.data), np.asarray(ba.transpose(perm).data) if ka + kb >= 2 else np.asarray(ba.data)):
                     bad("C05/identity/product-commutativity", f"a(x)b != transpose(b(x)a) for types {(ka, pa)}, {(kb, pb)}")
                 nt_keys.append(f"id/{D}/{ka}{pa}{kb}{pb}")
+                # the array-level product geom.mul with leading (batch / channel) axes on either operand is the same
+                # pixel-wise tensor product, entry by entry (offsets: number of leading axes of a and of b)
+                da, db = np.asarray(a.data), np.asarray(b.data)
+                ref = np.asarray(ab.data)
+                for offs in ((0, 0), (1, 0), (2, 1), (1, 1), (2, 2)):
+                    la = (3, 2)[2 - offs[0]:] if offs[0] else ()
+                    lb = la[len(la) - offs[1]:] if offs[1] else ()
+                    wa = (np.arange(int(np.prod(la))) + 1).reshape(la).astype(da.dtype) if la else np.ones((), da.dtype)
+                    wb = (2 * np.arange(int(np.prod(lb))) + 1).reshape(lb).astype(db.dtype) if lb else np.ones((), db.dtype)
+                    A = wa.reshape(la + (1,) * da.ndim) * da
+                    Bm = wb.reshape(lb + (1,) * db.ndim) * db
+                    got = np.asarray(geom.mul(D, jnp.asarray(A), jnp.asarray(Bm), offs[0], offs[1]))
+                    wab = wa.reshape(la) * wb.reshape((1,) * (len(la) - len(lb)) + lb)
+                    exp = wab.reshape(la + (1,) * ref.ndim) * ref
+                    evals += 1
+                    if got.shape != exp.shape or not np.array_equal(got, exp):
+                        bad("C05/identity/mul-leading-axes", f"geom.mul with offsets {offs} != per-entry tensor product for types {(ka, pa)}, {(kb, pb)} (shape {got.shape} vs {exp.shape})")
         return {"violations": v, "nt_keys": nt_keys, "evals": evals, "outcome": "identities"}
 
     for flags in ((True,) * D, (True,) + (False,) * (D - 1)):
